@@ -43,6 +43,7 @@ type op struct {
 	SgrB         string   // parameter text
 	LinkP, LinkU string   // OSC 8 params and URI
 	End          string   // OSC terminator
+	L            bool     // observe this step lightly (size, cursor, wrap flag, region) even after the preamble
 }
 
 var final1 = map[string]string{"CUU": "A", "CUD": "B", "CUF": "C", "CUB": "D", "CNL": "E", "CPL": "F", "CHA": "G",
@@ -103,8 +104,9 @@ func (o op) coq() string {
 }
 
 type gen struct {
-	r    *rand.Rand
-	w, h int
+	r        *rand.Rand
+	w, h     int
+	top, bot int // the scrolling region requested so far (1-based; used by the boundary generator only)
 }
 
 func (g *gen) par(size int) par {
@@ -252,6 +254,19 @@ func (g *gen) op() op {
 	}
 }
 
+// operations that move the cursor and nothing else: their step is observed lightly (size,
+// cursor, wrap flag, region - compared with the reference terminal all the same); the grid is
+// seen at the next complete observation, at the latest at the end of the history
+var cursorOnly = map[string]bool{"CR": true, "CUU": true, "CUD": true, "CUF": true, "CUB": true, "CNL": true, "CPL": true,
+	"CHA": true, "HPA": true, "VPA": true, "HPR": true, "VPR": true, "CUP": true, "HVP": true}
+
+func lightIfCursorOnly(o op) op {
+	if cursorOnly[o.Name] {
+		o.L = true
+	}
+	return o
+}
+
 type caseJSON struct {
 	W, H  int
 	Ops   []string      `json:"ops"`
@@ -260,8 +275,8 @@ type caseJSON struct {
 
 func main() {
 	cfg := hx.ParseFlags()
-	s := hx.NewStream("vt", "model.Colour model.Sgr model.Term model.TermCheck model.VtSpec model.TermAbs", "vt_case",
-		"c06_vt_mismatches", "c06_vt_violations")
+	s := hx.NewStream("vt", "model.Colour model.Sgr model.Term model.TermCheck model.VtSpec model.TermAbs model.VtCheck", "vt_case",
+		"c06_vt_mismatches", "c06_vt_violations_every")
 	s.ShardMax = 60
 
 	reparsed := 0
@@ -275,7 +290,8 @@ func main() {
 			if r.Dead {
 				break
 			}
-			if i >= skip {
+			r.FullEvery = 0
+			if i >= skip && !o.L {
 				r.FullEvery = 1
 			}
 			// one operation is one sequence; under machine load the parser's
@@ -363,8 +379,8 @@ func main() {
 					continue
 				}
 				for _, o := range voc {
-					ops := append(append([]op{}, pre...), o, op{Name: "Print", G: "q", W: 1})
-					runCase(g.w, g.h, len(pre)-1, ops, "exhaustive-1", fmt.Sprintf("size-%dx%d", g.w, g.h))
+					ops := append(append([]op{}, pre...), lightIfCursorOnly(o), op{Name: "Print", G: "q", W: 1})
+					runCase(g.w, g.h, len(pre), ops, "exhaustive-1", fmt.Sprintf("size-%dx%d", g.w, g.h))
 				}
 			}
 		}
@@ -375,8 +391,8 @@ func main() {
 				pre := append(fill(g, true), op{Name: "DECSTBM", P: []par{{N: int64(v.t)}, {N: int64(v.b)}}},
 					op{Name: "CUP", P: []par{{N: int64(v.r)}, {N: 2}}})
 				for _, o := range voc {
-					ops := append(append([]op{}, pre...), o, op{Name: "Print", G: "q", W: 1})
-					runCase(g.w, g.h, len(pre)-1, ops, "exhaustive-1-region", fmt.Sprintf("size-%dx%d", g.w, g.h))
+					ops := append(append([]op{}, pre...), lightIfCursorOnly(o), op{Name: "Print", G: "q", W: 1})
+					runCase(g.w, g.h, len(pre), ops, "exhaustive-1-region", fmt.Sprintf("size-%dx%d", g.w, g.h))
 				}
 				if cfg.Thorough() && g.w*g.h <= 9 {
 					for _, o1 := range voc {
@@ -385,7 +401,7 @@ func main() {
 								continue
 							}
 							ops := append(append([]op{}, pre...), o1, o2, op{Name: "Print", G: "q", W: 1})
-							runCase(g.w, g.h, len(pre)-1, ops, "exhaustive-2", fmt.Sprintf("size-%dx%d", g.w, g.h))
+							runCase(g.w, g.h, len(pre), ops, "exhaustive-2", fmt.Sprintf("size-%dx%d", g.w, g.h))
 						}
 					}
 				}
@@ -412,11 +428,13 @@ func main() {
 		}
 		m := 6 + cfg.Rand.Intn(20)
 		for k := 0; k < m; k++ {
-			ops = append(ops, g.op())
+			ops = append(ops, lightIfCursorOnly(g.op()))
 		}
 		runCase(g.w, g.h, skip, ops, "random", fmt.Sprintf("len-%d0s", len(ops)/10))
 	}
-	cfg.Write("C06", "operation sequences over the vocabulary of VtSpec.v (printable narrow and wide text, CR, LF, IND, RI, NEL, CUU..CUP/HVP, ED, EL, ECH, ICH, DCH, IL, DL, SU, SD, DECSTBM, DECSC, DECRC, alternate screen, SGR, OSC 8 hyperlinks with targets and parameters over an alphabet containing \";\", \":\", \"=\") with parameters omitted, 0, 1, 2, size-1, size, size+1 and huge, on screens from 2x2: (a) every operation shape once after a preamble that fills the screen with distinct glyphs (plain and styled) and places the cursor in a corner, the middle or an edge, followed by one more glyph; thorough: also pairs of shapes inside a scrolling region; (b) random histories of 6-45 operations; written as bytes, parsed by the real ansi.Parser; the complete emulator state is observed after every operation; non-trivial = at least three different operations in the history",
+	// directed boundary classes and random histories biased towards them (boundary.go)
+	boundary(cfg.Thorough(), cfg.Rand, runCase, fill)
+	cfg.Write("C06", "operation sequences over the vocabulary of VtSpec.v (printable narrow and wide text, CR, LF, IND, RI, NEL, CUU..CUP/HVP, ED, EL, ECH, ICH, DCH, IL, DL, SU, SD, DECSTBM, DECSC, DECRC, alternate screen, SGR, OSC 8 hyperlinks with targets and parameters over an alphabet containing \";\", \":\", \"=\") with parameters omitted, 0, 1, 2, size-1, size, size+1 and huge, on screens from 2x2: (a) every operation shape once after a preamble that fills the screen with distinct glyphs (plain and styled) and places the cursor in a corner, the middle or an edge, followed by one more glyph; thorough: also pairs of shapes inside a scrolling region; (b) random histories of 6-45 operations; (c) boundaries: on small screens every scrolling region shape (and none), the cursor on every line (on / one above / one below either margin, first, last line), then CUU CUD CNL CPL VPR VPA with every parameter omitted, 0..height+1, 65535, 65536, 2^63-1, IL DL SU SD with parameters around the distance to the bottom margin and the region height and huge, IND RI NEL LF, and autowrap by a narrow glyph, a wide glyph that does not fit and after a wide glyph ending in the last column; every column with CUF CUB HPR CHA HPA ECH ICH DCH ED EL and glyphs; the deferred-wrap state (after a narrow or a wide glyph, inside / on the bottom margin of / below / above a region) followed by every operation specified in it (CUP/HVP onto the same cell, beyond the width, elsewhere; CHA HPA VPA CR SGR hyperlink glyphs) and two glyphs; DECSC/DECRC/1049 combinations with differing saved position and pen on both screens; (d) random histories that aim at those positions; written as bytes, parsed by the real ansi.Parser; the complete emulator state is observed after every operation under test (size, cursor, wrap flag and region after every other one); non-trivial = at least three different operations in the history",
 		[]*hx.Stream{s}, map[string]interface{}{"reparsed_after_escape_timer": reparsed}, nil)
 }
 
